@@ -339,3 +339,9 @@ func (t *Transport) healthyBody(req *http.Request, reqBody []byte, h uint64) []b
 		return []byte(`{}`)
 	}
 }
+
+// HealthyBody is the provider-shaped success body the simulated servers answer a request
+// with, as a function of h (for harnesses that bring their own transport).
+func HealthyBody(req *http.Request, reqBody []byte, h uint64) []byte {
+	return (&Transport{}).healthyBody(req, reqBody, h)
+}
